@@ -62,8 +62,8 @@ CLAIMS = {
         text="MCScpiProcess checks the offset invariant 0<=proc<=rd<=rend<=N and that a read is always offered space, for every chunking and "
              "content within the bounds, and - under weak fairness of process's own steps - the liveness property Progress (process always comes back "
              "to a read: no loop without consuming input; a spinning mutant is the failing negative control). Every byte string over the 18-symbol class alphabet up to L, seeded message sequences and seeded "
-             "random/mutated inputs over all byte values are run through run() with 7..23 writers (capacities 0..64, std, pass-through) and "
-             "through process::<N> for N in 1..32,47,64,128,1024 under whole/byte-wise/seeded schedules; TraceScpi's monitors reject any "
+             "random/mutated inputs over all byte values are run through run() with up to 77 writers (heapless::Vec of every capacity 0..=64, std, "
+             "pass-through with and without a bound) and through process::<N> for N drawn from 1..=64, 128, 1024 under whole/byte-wise/seeded schedules; TraceScpi's monitors reject any "
              "panic, non-suffix remainder, empty read buffer or missing return, a watchdog catches calls that do not return.",
         design_ref="DESIGN.md section 4 C05",
         note=TRUST + " Coverage-guided fuzzing (named in the property's quantifier) is outside this technique family and not used.",
